@@ -7,6 +7,8 @@ import (
 	"io"
 	"os"
 	"os/exec"
+	"strings"
+	"sync"
 	"time"
 
 	"github.com/mattn/anko/env"
@@ -29,23 +31,64 @@ type workResp struct {
 }
 
 type worker struct {
-	cmd *exec.Cmd
-	in  io.WriteCloser
-	out *bufio.Reader
+	cmd    *exec.Cmd
+	in     io.WriteCloser
+	out    *bufio.Reader
+	stderr *tailBuf
+}
+
+// tailBuf keeps the first bytes a child wrote to stderr (the fatal error header)
+type tailBuf struct {
+	mu sync.Mutex
+	b  []byte
+}
+
+func (t *tailBuf) Write(p []byte) (int, error) {
+	t.mu.Lock()
+	if len(t.b) < 600 {
+		t.b = append(t.b, p...)
+	}
+	t.mu.Unlock()
+	return len(p), nil
+}
+
+func (t *tailBuf) String() string {
+	t.mu.Lock()
+	defer t.mu.Unlock()
+	s := string(t.b)
+	if len(s) > 300 {
+		s = s[:300]
+	}
+	return strings.ReplaceAll(s, "\n", " | ")
 }
 
 var theWorker *worker
+
+// wslot is one restartable worker child (several of them run side by side in the no-panic stream)
+type wslot struct{ w *worker }
+
+func (sl *wslot) run(req workReq, limit time.Duration) string { return runOn(&sl.w, req, limit) }
+
+func (sl *wslot) stop() {
+	if sl.w != nil {
+		sl.w.in.Close()
+		sl.w.cmd.Process.Kill()
+		sl.w.cmd.Wait()
+		sl.w = nil
+	}
+}
 
 func startWorker() *worker {
 	cmd := exec.Command(os.Args[0], "__worker")
 	cmd.Env = append(os.Environ(), "GOMEMLIMIT=1GiB")
 	in, _ := cmd.StdinPipe()
 	out, _ := cmd.StdoutPipe()
-	cmd.Stderr = io.Discard
+	tb := &tailBuf{}
+	cmd.Stderr = tb
 	if err := cmd.Start(); err != nil {
 		panic(err)
 	}
-	return &worker{cmd: cmd, in: in, out: bufio.NewReaderSize(out, 1<<20)}
+	return &worker{cmd: cmd, in: in, out: bufio.NewReaderSize(out, 1<<20), stderr: tb}
 }
 
 // runIsolated returns the driver-format answer ("ok ...", "err ...", "panic ...") or
@@ -59,16 +102,18 @@ func runIsolatedRaw(kind, payload string, limit time.Duration) string {
 	return runIsolatedReq(workReq{Kind: kind, Src: payload}, limit)
 }
 
-func runIsolatedReq(req workReq, limit time.Duration) string {
-	if theWorker == nil {
-		theWorker = startWorker()
+func runIsolatedReq(req workReq, limit time.Duration) string { return runOn(&theWorker, req, limit) }
+
+func runOn(wp **worker, req workReq, limit time.Duration) string {
+	if *wp == nil {
+		*wp = startWorker()
 	}
-	w := theWorker
+	w := *wp
 	b, _ := json.Marshal(req)
 	if _, err := w.in.Write(append(b, '\n')); err != nil {
 		w.cmd.Process.Kill()
 		w.cmd.Wait()
-		theWorker = nil
+		*wp = nil
 		return "crashed write: " + err.Error()
 	}
 	type res struct {
@@ -85,8 +130,8 @@ func runIsolatedReq(req workReq, limit time.Duration) string {
 		if r.err != nil {
 			w.cmd.Process.Kill()
 			err := w.cmd.Wait()
-			theWorker = nil
-			return fmt.Sprintf("crashed %v", err)
+			*wp = nil
+			return fmt.Sprintf("crashed %v stderr: %s", err, w.stderr.String())
 		}
 		var resp workResp
 		if err := json.Unmarshal([]byte(r.line), &resp); err != nil {
@@ -96,7 +141,7 @@ func runIsolatedReq(req workReq, limit time.Duration) string {
 	case <-time.After(limit):
 		w.cmd.Process.Kill()
 		w.cmd.Wait()
-		theWorker = nil
+		*wp = nil
 		return "timeout"
 	}
 }
@@ -114,7 +159,12 @@ func stopWorker() {
 func workerMain() {
 	sc := bufio.NewScanner(os.Stdin)
 	sc.Buffer(make([]byte, 1<<20), 1<<26)
-	out := bufio.NewWriter(os.Stdout)
+	// the protocol keeps the real stdout; what scripts print goes nowhere
+	proto := os.Stdout
+	if null, err := os.OpenFile(os.DevNull, os.O_WRONLY, 0); err == nil {
+		os.Stdout = null
+	}
+	out := bufio.NewWriter(proto)
 	for sc.Scan() {
 		var req workReq
 		if err := json.Unmarshal(sc.Bytes(), &req); err != nil {
@@ -136,6 +186,12 @@ func workerMain() {
 			if !resp.Returned {
 				os.Exit(0)
 			}
+			continue
+		}
+		if req.Kind == "nopanic" {
+			b, _ := json.Marshal(workResp{Answer: noPanicInWorker(req.Src)})
+			out.Write(append(b, '\n'))
+			out.Flush()
 			continue
 		}
 		var setup func(e *env.Env)
